@@ -3,6 +3,8 @@ the piecewise-constant-function model (vlib/oracles/intervals.py). Installed on
 util.*, so every internal call from segment/chord/hierarchy/sonify and from the
 repository's own tests is checked as well."""
 
+from fractions import Fraction
+
 import numpy as np
 
 from .. import env, shim
@@ -247,7 +249,9 @@ def post_merge(ctx):
             return
         fx, fy = oi.label_fn(xi, list(xl)), oi.label_fn(yi, list(yl))
         for (a, b), lx, ly in zip(out, ox, oy):
-            p = (a + b) / 2
+            # exact mid-point: for a sliver between adjacent floats the float
+            # mid-point rounds onto a boundary
+            p = (Fraction(float(a)) + Fraction(float(b))) / 2
             if fx(p) != lx or fy(p) != ly:
                 _viol(ctx, call, "util.merge_labeled_intervals", "label",
                       "piece [%r, %r] carries (%r, %r), annotations had (%r, %r)"
